@@ -13,13 +13,23 @@ theorem builtin_tags_not_classes :
 theorem keyStr_str {k : Key} (h : k.isStr = true) : keyStr k = .ok (keyName k) ∧ Key.str (keyName k) = k := by
   cases k <;> simp_all [Key.isStr, keyStr, keyName]
 
+/-- whatever `allow_nan` is: `json.dumps` accepts a float iff it is finite or `allow_nan` holds -/
+theorem dumpFlt_isOk (f : Flt) : (dumpFlt f).isOk = (f.isFinite || NemoVerif.Generated.C11.dumpsAllowNan) := by
+  unfold dumpFlt; split <;> simp_all [Except.isOk, Except.toBool]
+
+/-- `json.dumps` as `state_to_json` calls it writes EVERY float, the non-finite ones included (as the tokens `NaN`,
+    `Infinity`, `-Infinity`).  Proved against the `allow_nan` value the translator reads off the source on every run:
+    with `allow_nan=False` this lemma — and with it `roundtrip_tree`, `encode_total_iff` … — no longer re-proves. -/
+@[simp] theorem dumpFlt_ok (f : Flt) : dumpFlt f = .ok (.flt f) := by
+  simp [dumpFlt, NemoVerif.Generated.C11.dumpsAllowNan]
+
 /-! ### raw payloads (Action.to_dict) -/
 mutual
 theorem raw_roundtrip : (v : PV) → RawOk v = true → ∃ j, rawDump v = .ok j ∧ decode j = .ok v
   | .none, _ => ⟨.null, by simp [rawDump], by simp [decode]⟩
   | .bool b, _ => ⟨.bool b, by simp [rawDump], by simp [decode]⟩
   | .int i, _ => ⟨.int i, by simp [rawDump], by simp [decode]⟩
-  | .flt m e, _ => ⟨.flt m e, by simp [rawDump], by simp [decode]⟩
+  | .flt f, _ => ⟨.flt f, by simp [rawDump], by simp [decode]⟩
   | .str s, _ => ⟨.str s, by simp [rawDump], by simp [decode]⟩
   | .list xs, h => by
     simp only [RawOk] at h
@@ -147,7 +157,7 @@ theorem roundtrip : (v : PV) → Encodable v = true → ∃ j, encode v = .ok j 
   | .none, _ => ⟨.null, by simp [encode], by simp [decode]⟩
   | .bool b, _ => ⟨.bool b, by simp [encode], by simp [decode]⟩
   | .int i, _ => ⟨.int i, by simp [encode], by simp [decode]⟩
-  | .flt m e, _ => ⟨.flt m e, by simp [encode], by simp [decode]⟩
+  | .flt f, _ => ⟨.flt f, by simp [encode], by simp [decode]⟩
   | .str s, _ => ⟨.str s, by simp [encode], by simp [decode]⟩
   | .list xs, h => by
     simp only [Encodable] at h
@@ -279,7 +289,8 @@ theorem keyStr_isOk (k : Key) : (keyStr k).isOk = k.dumpable := by
 
 mutual
 theorem rawDump_isOk : (v : PV) → (rawDump v).isOk = RawShape v
-  | .none | .bool _ | .int _ | .flt _ _ | .str _ => by simp [rawDump, RawShape, Except.isOk, Except.toBool]
+  | .none | .bool _ | .int _ | .str _ => by simp [rawDump, RawShape, Except.isOk, Except.toBool]
+  | .flt f => by simp only [rawDump, RawShape]; exact dumpFlt_isOk f
   | .list xs => by
     have := rawDumpList_isOk xs
     cases h : rawDumpList xs <;> simp_all [rawDump, RawShape, bind, Except.bind, pure, Except.pure, Except.isOk, Except.toBool]
@@ -311,8 +322,9 @@ end
 
 mutual
 theorem encode_isOk : (v : PV) → (encode v).isOk = EncShape v
-  | .none | .bool _ | .int _ | .flt _ _ | .str _ | .partialFn | .specType _ | .datetime _ | .enum _ _ | .regex _ _ => by
+  | .none | .bool _ | .int _ | .str _ | .partialFn | .specType _ | .datetime _ | .enum _ _ | .regex _ _ => by
     simp [encode, EncShape, Except.isOk, Except.toBool]
+  | .flt f => by simp only [encode, EncShape]; exact dumpFlt_isOk f
   | .list xs | .tuple xs | .set xs | .deque xs => by
     have := encodeList_isOk xs
     cases h : encodeList xs <;> simp_all [encode, EncShape, bind, Except.bind, pure, Except.pure, Except.isOk, Except.toBool]
